@@ -136,11 +136,13 @@ where
             self.position += self.block.size();
 
             if self.block.data().len() > 0 {
-                break;
+                return Ok(self.block.data().len());
             }
         }
 
-        Ok(self.block.data().len())
+        // No nonempty block was read (EOF). The current block may still be the previously read one,
+        // so its length must not be reported as the number of bytes read.
+        Ok(0)
     }
 
     fn read_block(&mut self) -> io::Result<usize> {
